@@ -7,6 +7,7 @@ CONSTANTS
   PostSites = {1, 4, 5}
   MaxEdges = 3
   MaxEdits = 2
+  MaxTrainables = 2
   SAMPLE = 4000
   SEEDK = 0
 INVARIANT CreationOrderIrrelevant
